@@ -275,3 +275,20 @@ def nested_hash(i: int, l: int, a0: int, a1: int, c: int) -> bool:
         inner = Tuple(tuple(Discrete(n) for n in (a0, a1)[:l]))
         return Tuple((Dict(OrderedDict([(KEYS[i], inner)])), Tuple((inner, MultiBinary(c)))))
     return same_hash(mk(), mk())
+
+
+# ---------------------------------------------------------------- negative controls (deliberately wrong contracts)
+def control_discrete_eq_ignores_size(a: int, b: int) -> bool:
+    """
+    pre: 0 < a and 0 < b
+    post: __return__
+    """
+    return Discrete(a) == Discrete(b)
+
+
+def control_tuple_hash_distinguishes_nothing(a: int, b: int) -> bool:
+    """
+    pre: 0 < a < @NH@ and 0 < b < @NH@
+    post: __return__
+    """
+    return same_hash(Tuple((Discrete(a),)), Tuple((Discrete(b),)))
